@@ -81,6 +81,7 @@ def judge(res, results, status_table=None):
         parsable = K.request_is_parsable(c.raw, c.alloc or 10000)
         # the method is only known (and HEAD/OPTIONS bodylessness only required) when the request line parses
         fr = H.check_framing(resp, (c.method if c.kind in ('valid', 'handler-error') else firstword(c.raw)) if parsable else 'GET')
+        fr = [x for x in fr if x != 'options-content-length']   # C05's clause (known finding F42), not C04's
         if fr:
             res.fail('framing:' + fr[0], c.line[:300], raw[:200].hex(), None, f'C04: response is not self-consistent: {fr}')
         res.count(f'status {resp["status"]}')
